@@ -133,18 +133,21 @@ impl Judge for SerdeJudge {
             let natives = refsem::default_natives();
             let want = image(p);
             let run0 = realrun::run_program(m, p, &natives, &RunCfg::default());
-            for fmt in FORMATS {
-                let back: CaoCompiledProgram = match round(fmt, p) {
-                    Ok(b) => b,
-                    Err(e) => return JR::Fail { class: format!("program-{fmt}:roundtrip-error"), what: e },
-                };
-                let got = image(&back);
-                if got != want {
-                    return JR::Fail { class: format!("program-{fmt}:fields-differ"), what: format!("compiled program read back from {fmt}: {}", first_diff(&want, &got)) };
-                }
-                let run1 = realrun::run_program(m, &back, &natives, &RunCfg::default());
-                if run1.result != run0.result || run1.globals != run0.globals || run1.log != run0.log || run1.trace != run0.trace {
-                    return JR::Fail { class: format!("program-{fmt}:run-differs"), what: format!("running the program read back from {fmt}: result {} vs {}, trace {:?} vs {:?}", run1.result, run0.result, run1.trace, run0.trace) };
+            for (tag, src) in sources(p) {
+                let src: &CaoCompiledProgram = src.as_ref().unwrap_or(p);
+                for fmt in FORMATS {
+                    let back: CaoCompiledProgram = match round(fmt, src) {
+                        Ok(b) => b,
+                        Err(e) => return JR::Fail { class: format!("program{tag}-{fmt}:roundtrip-error"), what: e },
+                    };
+                    let got = image(&back);
+                    if got != want {
+                        return JR::Fail { class: format!("program{tag}-{fmt}:fields-differ"), what: format!("compiled program{tag} read back from {fmt}: {}", first_diff(&want, &got)) };
+                    }
+                    let run1 = realrun::run_program(m, &back, &natives, &RunCfg::default());
+                    if run1.result != run0.result || run1.globals != run0.globals || run1.log != run0.log || run1.trace != run0.trace {
+                        return JR::Fail { class: format!("program{tag}-{fmt}:run-differs"), what: format!("running the program{tag} read back from {fmt}: result {} vs {}, trace {:?} vs {:?}", run1.result, run0.result, run1.trace, run0.trace) };
+                    }
                 }
             }
         }
@@ -181,25 +184,47 @@ fn check_sized3(globals: usize, cards: usize, lit_len: usize) -> Option<(String,
     let natives = refsem::default_natives();
     let want = image(&p);
     let run0 = realrun::run_program(&m, &p, &natives, &RunCfg::default());
+    for (tag, src) in sources(&p) {
+        if let Some(v) = check_sized_src(&m, src.as_ref().unwrap_or(&p), tag, &want, &run0, globals, cards) {
+            return Some(v);
+        }
+    }
+    None
+}
+
+/// The program that is written out is not only the one the compiler just returned: a clone of it
+/// and one that was itself read back (bincode) are programs too, and their containers were built
+/// along other paths (Clone, the decoders) than the compiler's inserts.
+fn sources(p: &CaoCompiledProgram) -> Vec<(&'static str, Option<CaoCompiledProgram>)> {
+    // None: the program the compiler returned, itself
+    let mut v = vec![("", None), ("(a clone)", Some(p.clone())), ("(clone of a clone)", Some(p.clone().clone()))];
+    if let Ok(b) = round::<CaoCompiledProgram>("bincode", p) {
+        v.push(("(read back from bincode before)", Some(b)));
+    }
+    v
+}
+
+fn check_sized_src(m: &Module, p: &CaoCompiledProgram, tag: &str, want: &str, run0: &realrun::RealOutcome, globals: usize, cards: usize) -> Option<(String, String)> {
+    let natives = refsem::default_natives();
     for fmt in FORMATS {
-        let r = std::panic::catch_unwind(|| round::<CaoCompiledProgram>(fmt, &p));
+        let r = std::panic::catch_unwind(|| round::<CaoCompiledProgram>(fmt, p));
         let back = match r {
             Ok(Ok(b)) => b,
-            Ok(Err(e)) => return Some((format!("sized-{fmt}:roundtrip-error"), format!("{globals} globals, {cards} cards: {e}"))),
-            Err(pn) => return Some((format!("sized-{fmt}:panic"), format!("{globals} globals, {cards} cards: decoding panicked: {}", cvx_core::engine::panic_message(&pn)))),
+            Ok(Err(e)) => return Some((format!("sized{tag}-{fmt}:roundtrip-error"), format!("{globals} globals, {cards} cards: {e}"))),
+            Err(pn) => return Some((format!("sized{tag}-{fmt}:panic"), format!("{globals} globals, {cards} cards: decoding panicked: {}", cvx_core::engine::panic_message(&pn)))),
         };
         let got = image(&back);
         if got != want {
-            return Some((format!("sized-{fmt}:fields-differ"), format!("{globals} globals, {cards} cards ({} labels, {} trace entries): {}", p.labels.0.len(), p.trace.len(), first_diff(&want, &got))));
+            return Some((format!("sized{tag}-{fmt}:fields-differ"), format!("{globals} globals, {cards} cards ({} labels, {} trace entries): {}", p.labels.0.len(), p.trace.len(), first_diff(want, &got))));
         }
-        let r = std::panic::catch_unwind(std::panic::AssertUnwindSafe(|| realrun::run_program(&m, &back, &natives, &RunCfg::default())));
+        let r = std::panic::catch_unwind(std::panic::AssertUnwindSafe(|| realrun::run_program(m, &back, &natives, &RunCfg::default())));
         match r {
             Ok(run1) => {
                 if run1.result != run0.result || run1.globals != run0.globals || run1.trace != run0.trace {
-                    return Some((format!("sized-{fmt}:run-differs"), format!("{globals} globals, {cards} cards: result {} vs {}; trace {:?} vs {:?}", run1.result, run0.result, run1.trace.first(), run0.trace.first())));
+                    return Some((format!("sized{tag}-{fmt}:run-differs"), format!("{globals} globals, {cards} cards: result {} vs {}; trace {:?} vs {:?}", run1.result, run0.result, run1.trace.first(), run0.trace.first())));
                 }
             }
-            Err(pn) => return Some((format!("sized-{fmt}:run-panic"), format!("{globals} globals, {cards} cards: {}", cvx_core::engine::panic_message(&pn)))),
+            Err(pn) => return Some((format!("sized{tag}-{fmt}:run-panic"), format!("{globals} globals, {cards} cards: {}", cvx_core::engine::panic_message(&pn)))),
         }
     }
     None
